@@ -150,6 +150,8 @@ class Machine:
                     return UNIT
                 raise Unsupported(f"`{pl} += ..`")
             l, r = self.ev(e["left"], env), self.ev(e["right"], env)
+            if op in ("BinOp::Eq", "BinOp::Ne") and {l, r} == {("c",), ("char", "\n")} and "c_is_nl" in self.self:
+                return self.self["c_is_nl"] if op == "BinOp::Eq" else not self.self["c_is_nl"]
             if isinstance(l, int) and isinstance(r, int) and not isinstance(l, bool):
                 # l is abstract (0,1,2=many) when it comes from self.fields; comparisons with 0 / 1 are exact
                 if op == "BinOp::Eq":
@@ -329,6 +331,19 @@ def run_loop_body(fn, impl_fns, on_newline, piece_ends_nl):
     except _Return:
         pass
     return it, m.trace, m.self["on_newline"]
+
+
+def run_write_char(fn, impl_fns, on_newline, c_is_nl):
+    """`write_char(&mut self, c)` of a pad adapter on (on_newline, c == '\\n'): (writes to the inner sink, final on_newline)"""
+    names = [A.pat_idents(p["0"]["pat"]) for p in fn.node["sig"]["inputs"] if A.kind(p) == "FnArg::Typed"]
+    if len(names) != 1 or len(names[0]) != 1:
+        raise Unsupported("write_char parameters")
+    m = Machine(impl_fns, {"on_newline": on_newline, "c_is_nl": c_is_nl, "__sink__": "inner"}, {})
+    try:
+        m.block(fn.block, {names[0][0]: ("c",)})
+    except _Return:
+        pass
+    return [t for t in m.trace if t[0] != "on_newline="], m.self["on_newline"]
 
 
 def run_constructor(fn):
